@@ -481,7 +481,7 @@ def invariant(st):
             except Exception as exc:
                 got_b = "raised %r" % (exc,)
             if got_b != want_b:
-                sig = "%s:%s:%s:expected-%s" % (name, BASE_NAME[base], wrap, want_b)
+                sig = "%s:%s:expected-%s" % (name, wrap, want_b)
                 if sig not in seen_sigs:
                     seen_sigs.add(sig)
                     probs.append((sig, "%s(%s) = %s but %d of its %d bytes are stored: %s" % (name, target, got_b, npresent, len(reg), _fmt_model(st))))
